@@ -394,4 +394,23 @@ theorem server_any_chunks (table : List Nat → Option Handler) (path : List Nat
   unfold server
   simp only [toAligned_bytes, h]
 
+/-- What the client makes of a response depends on the bytes that arrived, not on how they were cut
+or what was announced. -/
+theorem client_any_chunks (rf ra http : Nat) (chunks chunks' : List (List Nat)) (hint hint' : Nat)
+    (h : chunks.flatten = chunks'.flatten) :
+    client rf ra http chunks hint = client rf ra http chunks' hint' := by
+  unfold client
+  simp only [toAligned_bytes, h]
+
+/-- **exchange_any_cuts**: the outcome of an exchange - what the handler ran on, what the client got -
+is the same for EVERY way of cutting the two bodies on the wire: chunk boundaries (HTTP/2 DATA
+frames, TCP segments, a slow peer) carry no meaning. -/
+theorem exchange_any_cuts (table : List Nat → Option Handler) (path : List Nat) (rf ra : Nat) (frame : List Nat)
+    (c1 c2 c1' c2' : List Nat) :
+    exchange table path rf ra frame c1 c2 = exchange table path rf ra frame c1' c2' := by
+  unfold exchange
+  rw [server_any_chunks table path (cut c1 frame) (cut c1' frame) frame.length frame.length (by rw [cut_flatten, cut_flatten])]
+  simp only
+  rw [client_any_chunks rf ra _ (cut c2 _) (cut c2' _) _ _ (by rw [cut_flatten, cut_flatten])]
+
 end Datacake.C12b
